@@ -376,6 +376,66 @@ theorem C04_solver_failure_refusal_iff {σ} (S : Sys σ) (p : Pars) (y0 : σ) (o
     rw [← r'.failed]
     simpa using this
 
+/-! ## A rejected call changes nothing -/
+
+/-- EVERY op of the state machine that raises (ValueError of a refused continuation or of unsorted points, IndexError of an
+    empty array / zero steps, KeyError of an unknown parameter name in `update_parameter(s)` / `scale_parameter(s)` — also when
+    other names of the same call are known) leaves the simulator exactly as it was: results, parameters, initial values,
+    time shift, integrator, error list. -/
+theorem C04_rejected_op_changes_nothing {σ} (S : Sys σ) (s : Sim σ) (op : Op) (e : Exc)
+    (h : (step S s op).2 = some e) : (step S s op).1 = s := by
+  cases op with
+  | simulate t n =>
+    simp only [step, simulate] at h ⊢
+    repeat' split at h
+    all_goals first | (simp at h; done) | skip
+    all_goals (repeat' split) <;> first | rfl | (simp_all; done)
+  | timeCourse pts =>
+    simp only [step, timeCourse] at h ⊢
+    repeat' split at h
+    all_goals first | (simp at h; done) | skip
+    all_goals (repeat' split) <;> first | rfl | (simp_all; done)
+  | steady res =>
+    simp only [step, steady] at h
+    repeat' split at h
+    all_goals simp at h
+  | updPars kvs =>
+    simp only [step, updPars] at h ⊢
+    rw [parsUpdate_err s.pars kvs e h]
+  | updVars ov =>
+    simp only [step, updVars] at h ⊢
+    repeat' split at h
+    all_goals first | (simp at h; done) | skip
+    all_goals (repeat' split) <;> first | rfl | (simp_all; done)
+  | clear => simp [step] at h
+  | simulateF t n =>
+    simp only [step, simulateF] at h ⊢
+    repeat' split at h
+    all_goals first | (simp at h; done) | skip
+    all_goals (repeat' split) <;> first | rfl | (simp_all; done)
+  | timeCourseF pts =>
+    simp only [step, timeCourseF] at h ⊢
+    repeat' split at h
+    all_goals first | (simp at h; done) | skip
+    all_goals (repeat' split) <;> first | rfl | (simp_all; done)
+  | scalePars kvs =>
+    simp only [step, scalePars, parsScale] at h ⊢
+    split at h
+    · rfl
+    · rw [parsUpdate_err s.pars _ e h]
+
+/-! ## Clearing -/
+
+/-- `clear_results` FOLLOWED BY A CONTINUATION: a cleared simulator is a fresh one — `Simulator(model, y0)` with the
+    parameters the model has now and the initial values the simulator holds (the last override included) — whatever happened
+    before (results, time shift, a failed integration): every later history runs exactly as on that fresh simulator. -/
+theorem C04_clear_is_fresh {σ} (S : Sys σ) (s : Sim σ) (ops : List Op) :
+    clear s = Sim.init s.pars s.y0 ∧
+    run S (step S s .clear).1 ops = run S (Sim.init s.pars s.y0) ops := by
+  have h : clear s = Sim.init s.pars s.y0 := by
+    simp [clear, Sim.init, reinit]
+  exact ⟨h, by simp only [step, h]⟩
+
 /-! ## Scaled parameters -/
 
 /-- `scale_parameter(s)` is `update_parameter(s)` with every named value multiplied by its factor — all factors applied
